@@ -38,6 +38,33 @@ CLAIMED = {
             "condition, start value and n: exactly 2n+1 steps, n body calls, n+1 gate calls, final value F^n(x0), and the exact limit state otherwise. Tie: families with body "
             "length 1-3, accumulators, both default_open settings, max_iterations around the exact bound, both runners, against a Python while-loop.",
             BASE_NOTE + "Partial: families, not arbitrary cyclic programs; Progress hypothesis (known finding C04-F1: stall when an intermediate value repeats).", "DESIGN.md §7 C04"),
+    "C05": ("proof", "Lean 4 proof: refinement of a nested run to the inlined run (value level, any nesting depth) + input-spec equality + flat-vs-nested differential correspondence",
+            "Kernel-checked over arbitrary programs of the run model: a nested-graph node behaves as the function computed by its inner run (graphnode_as_function); wrapping a "
+            "dependency-closed group of a gate-free acyclic graph leaves the reported inputs unchanged (nest_inputspec_eq, also through elaboration) and the run's outputs "
+            "unchanged (nest_run_eq, nest_values_eq_renamed under interface renames undone by the wiring), lifted to any nesting depth (nest_depth). Tie: random DAGs x random "
+            "convex cuts nested to depth 1-3, with wrapper renames, with bindings moved onto the inner graph or bound at both levels, flat vs nested on the real code "
+            "(input spec, status, values, invocation counts, both runners) and each side against the model.",
+            BASE_NOTE + "Partial: the value-level theorem assumes gate-free, signal-free groups (nest_values_eq_partial names the hypothesis); ordering signals that cross the "
+            "nesting boundary are not delivered by the real code (known finding C05-F1) and are kept out of the random stream.", "DESIGN.md §7 C05"),
+    "C07": ("proof", "Lean 4 proof: frame invariant over a heap model of graph/node objects (every derivation allocates, none writes) + history correspondence",
+            "Kernel-checked for ALL histories of derivation operations (bind, unbind, select, with_entrypoint, add_nodes, as_node, with_name, with_inputs, with_outputs, "
+            "map_over) interleaved with cache-filling reads: every operation returns a fresh object (fresh), only appends to the heap (only_appends), leaves the observation "
+            "of every existing object unchanged (frame, frame_seq, frame_reachable), siblings derived from a common ancestor are independent, lazily cached views stay "
+            "coherent with the fields they are computed from; an aliasing variant of copy is refuted by a concrete witness. Tie: random histories run on real objects; after "
+            "EVERY operation the public observation and BEHAVIOUR (argument routing, structure hash, result of running it) of EVERY object created so far is compared with "
+            "its snapshot and with the heap model.",
+            BASE_NOTE + "The heap model abstracts a wrapper's inputs as the inner graph's free parameters; wrappers of graphs with entry points or a selection are judged by "
+            "the snapshot oracle only.", "DESIGN.md §7 C07"),
+    "C18": ("proof", "Lean 4 proof: invariant over run histories of a memory model with object identity (default cells never escape) + replay of the REAL call schedule through the model",
+            "Kernel-checked for ALL interleavings of any number of runs (defaults_never_escape, _runMany, _sched): no reference to a signature default object is ever "
+            "handed to a function, so every default-valued argument arrives with the pristine content (result_from_initial) and repeated or concurrent runs with equal inputs "
+            "give equal results (repeat_equal, repeat_equal_defaults); the caller's mappings are never written (inputs_untouched); bound objects arrive by identity "
+            "(bound_by_identity); the variant without the deep copy is refuted (no_copy_leaks_witness). Tie: histories of 2-6 runs over generated graphs whose functions "
+            "mutate default / bound / provided arguments, flat, nested and nested+mapped (clone False/True/list), same or fresh runner, sync, async sequential, async "
+            "concurrent under random interleavings; the real call order is replayed through the Lean model and every call's argument contents, results, object identities "
+            "and the final caller-visible memory are compared; an implementation-side oracle states the property directly.",
+            BASE_NOTE + "Mapped nested shapes and immutable twins of a default are judged by the oracle only (the memory model is flat). Two genuine defects were repaired "
+            "(fix 800d549: defaults shared between map items; inner bindings cloned under clone=True).", "DESIGN.md §7 C18"),
     "C06": ("proof", "Lean 4 proof: invariant over rename histories (ground-truth tracking) + differential correspondence",
             "Kernel-checked theorems for ALL valid rename histories (any number of batches, swaps, chains, re-used names): reverse/forward maps, "
             "nested-graph resolvers, argument delivery and map_over translation are correct; negative witnesses for the two repaired defects. "
@@ -156,7 +183,7 @@ def main() -> None:
         }],
         "checks": checks,
         "notes": "Properties move from not_applicable into checks as their model, theorems and correspondence are built. "
-                 "9 genuine defects were repaired by fix: commits in /repo (see known_findings.json, DESIGN.md §9).",
+                 "12 genuine defects were repaired by fix: commits in /repo (see known_findings.json, DESIGN.md §9).",
         "not_applicable": na,
     }
     (ROOT / "MANIFEST.json").write_text(json.dumps(m, indent=1) + "\n")
